@@ -92,9 +92,20 @@ fn c01_splitbrain(ctx: &VariantCtx) -> WorldOutcome {
 fn c02_live(ctx: &VariantCtx) -> WorldOutcome {
     cluster_variant(ctx, |p, t| {
         p.liveness = true;
-        p.min_ms = 16_000;
-        p.max_ms = if t == Tier::Thorough { 40_000 } else { 26_000 };
+        p.min_ms = 20_000;
+        p.max_ms = if t == Tier::Thorough { 50_000 } else { 38_000 };
+        p.max_n = 6;
         p.byz_permille = 400;
+    })
+}
+
+fn c02_lockstep(ctx: &VariantCtx) -> WorldOutcome {
+    cluster_variant(ctx, |p, _| {
+        p.liveness = true;
+        p.fault_free = true;
+        p.lockstep = true;
+        p.min_ms = 6_000;
+        p.max_ms = 10_000;
     })
 }
 
@@ -122,8 +133,25 @@ fn kw(ctx: &VariantCtx) -> WorldOutcome {
     crate::kworld::run(&or, &ctx.property, if ctx.tier == Tier::Thorough { 6 } else { 4 })
 }
 
+fn c11(_ctx: &VariantCtx) -> WorldOutcome {
+    crate::dissem::c11_run()
+}
+fn c12(_ctx: &VariantCtx) -> WorldOutcome {
+    crate::dissem::c12_run()
+}
+fn c13(ctx: &VariantCtx) -> WorldOutcome {
+    crate::dissem::c13_run(if ctx.tier == Tier::Thorough { 40 } else { 8 })
+}
+fn c16(ctx: &VariantCtx) -> WorldOutcome {
+    crate::dissem::c16_run(if ctx.tier == Tier::Thorough { 40 } else { 16 })
+}
+
 pub fn variants(property: &str, _tier: Tier) -> Vec<Variant> {
     match property {
+        "C11" => vec![Variant { name: "dissem-erasure", weight: 1, max_events: 100_000, run: c11 }],
+        "C12" => vec![Variant { name: "dissem-binding", weight: 1, max_events: 100_000, run: c12 }],
+        "C13" => vec![Variant { name: "dissem-blockstore", weight: 1, max_events: 100_000, run: c13 }],
+        "C16" => vec![Variant { name: "dissem-routing", weight: 1, max_events: 400_000, run: c16 }],
         "C03" | "C04" | "C06" => vec![Variant { name: "pool-votes", weight: 1, max_events: 100_000, run: vw }],
         "C07" | "C08" => vec![Variant { name: "pool-certs", weight: 1, max_events: 100_000, run: kw }],
         "C18" => vec![
@@ -137,6 +165,7 @@ pub fn variants(property: &str, _tier: Tier) -> Vec<Variant> {
         "C02" => vec![
             Variant { name: "cluster-stabilising", weight: 3, max_events: 800_000, run: c02_live },
             Variant { name: "cluster-fault-free", weight: 1, max_events: 800_000, run: c02_fault_free },
+            Variant { name: "cluster-lockstep", weight: 1, max_events: 800_000, run: c02_lockstep },
         ],
         _ => vec![],
     }
@@ -170,8 +199,24 @@ pub fn plan(property: &str, tier: Tier) -> Option<Plan> {
             "same generator as C07; after every step finalized_slot, the finalization log (hook H5), the pruning watermark, retained slots and SlotOutOfBounds verdicts are compared with the reference 'FastFinal or (Final and Notar), closed under known parent links'; non-trivial = an implicit finalization occurred or two slots were finalized; distinct = fingerprint over the finalization reports"),
         "C18" => (if q { 6_000 } else { 300_000 }, if q { 90 } else { 1500 }, "exploration",
             "pool-votes and pool-certs generators with recover_from_standstill() triggered after sampled prefixes of the history (including the empty prefix = fresh pool); the bundle is checked for the finality proof, all later certificates and own votes, validity of every element, and a fresh pool fed only the bundle must reach the same finalized slot and the same ready parents for the following window; non-trivial = recovery was triggered; distinct = history fingerprint"),
+        "C11" => (if q { 20_000 } else { 1_000_000 }, if q { 60 } else { 1200 }, "exploration",
+            "one case = one slice (shredder variant, boundary-biased payload length over every residue of the padding scheme incl. 0, max and max+1, with/without parent) shredded by the leader and sent over a lossy, reordering, duplicating datagram network to a receiver that stores shreds by index and calls deshred on every arrival; deshred must succeed iff >=32 distinct shreds arrived, reproduce the slice and all 64 shreds bit-for-bit, each regenerated shred validating under the signed root, and leave the array untouched on error; non-trivial = at least one shred arrived; distinct = (shredder, length, parent, arrivals kept)"),
+        "C12" => (if q { 6_000 } else { 300_000 }, if q { 60 } else { 1200 }, "exploration",
+            "one case = an honest leader's block with a tamperer on the path applying structured mutations (every header field, shred index, payload byte/length, proof element/length, signature, data/coding tag, cross-slot/slice replay, splice) with and without a cached commitment at the receiver, followed by the genuine shreds; or a Byzantine leader signing two commitments for one slice in both arrival orders; the receiver is the message loop's validation path on a real BlockstoreImpl; non-trivial = at least one tampered shred was delivered; distinct = set of mutation classes delivered x mode"),
+        "C13" => (if q { 4_000 } else { 200_000 }, if q { 60 } else { 1200 }, "exploration",
+            "one case = one block shape (1..K slices, empty to full slices, optional optimistic-handover parent switch, or one of eight malformations signed by the leader) delivered to a real BlockstoreImpl with >=32 shreds of every slice in a sampled order with duplicates and conflicting material placed anywhere; exactly-once events, hash/parent, serving of every shred/root/proof, fast path equality, and exactly one InvalidBlock for malformed blocks are checked; distinct = (malformation, slices, ingest outcome histogram)"),
+        "C16" => (if q { 600 } else { 30_000 }, if q { 60 } else { 1200 }, "exploration",
+            "one case = 2..40 independently constructed disseminator instances (Trivial, Rotor::new, Rotor::new_fa1, Turbine with fanout 1..n or 200; constructed at different simulated times in a sampled order, caches cold/warm, sampled call order) on a loss-free network with arbitrary delays; a leader sends every shred of a block; every other validator must receive each shred, exactly once under Turbine/Trivial and through at most one relay broadcast under Rotor; non-trivial = n >= 3; distinct = (disseminator, n, stakes, slot)"),
         _ => return None,
     };
+    if matches!(property, "C11" | "C12" | "C13" | "C16") {
+        return Some(Plan {
+            runs, budget_s, level, rule,
+            real: vec!["RegularShredder / CodingOnlyShredder / AontShredder / PetsShredder, Reed-Solomon, Merkle", "ValidatedShred::try_new, SliceCommitment", "BlockstoreImpl + SlotBlockData", "Rotor (both constructors), Turbine, TrivialDisseminator, all samplers they use", "Ed25519"],
+            stubbed: vec!["the datagram network between leader and receivers (schedule of losses, reorderings, duplications, tampering)", "receivers run the body of Alpenglow::handle_disseminator_shred re-stated in the harness (cached commitment -> try_new -> add_shred_from_dissemination)", "AONT/PETS key randomness: seeded stand-in (hook H2)"],
+            assumptions,
+        });
+    }
     if matches!(property, "C03" | "C04" | "C06" | "C07" | "C08" | "C18") {
         return Some(Plan {
             runs, budget_s, level, rule,
@@ -201,7 +246,12 @@ pub fn classify_panic(p: &PanicRecord) -> (String, String) {
     ("C10".into(), format!("panic:{site}"))
 }
 
-/// Post-run oracles of the cluster world (liveness etc.).
+/// Bound for "keeps advancing": 2*DELTA_STANDSTILL + 4*(DELTA_TIMEOUT + 4*DELTA_BLOCK), in ms.
+pub const LIVENESS_BOUND_MS: u64 = 2 * 10_000 + 4 * (750 + 4 * 400);
+/// Slack after a window's last slot by which its blocks must be finalized everywhere.
+pub const WINDOW_FINALITY_SLACK_MS: u64 = 750 + 4 * 400;
+
+/// Post-run oracles of the cluster world (bounded liveness after stabilisation, C02).
 pub fn cluster_post(
     profile: &Profile,
     cfg: &ClusterCfg,
@@ -209,6 +259,129 @@ pub fn cluster_post(
     timeline: &[(u64, Vec<u64>)],
     crashed_at: &[Option<u64>],
 ) {
-    let _ = (profile, cfg, obs, timeline, crashed_at, json!(null));
-    let _ = kernel::now_ms;
+    if !profile.liveness {
+        return;
+    }
+    let Some(ts) = cfg.net.stabilise_at_ms else { return };
+    let n = cfg.n;
+    let end = timeline.last().map_or(0, |t| t.0);
+    let live: Vec<usize> = (0..n).filter(|i| cfg.roles[*i] == cluster::Role::Correct && crashed_at[*i].is_none()).collect();
+    if live.is_empty() {
+        return;
+    }
+    let total: u64 = cfg.stakes.iter().sum();
+    let live_stake: u64 = live.iter().map(|i| cfg.stakes[*i]).sum();
+    let at = |t: u64, node: usize| -> u64 {
+        // finalized slot of `node` at time `t` (timeline is sampled every 100 ms)
+        match timeline.binary_search_by_key(&t, |x| x.0) {
+            Ok(i) => timeline[i].1[node],
+            Err(0) => 0,
+            Err(i) => timeline[i - 1].1[node],
+        }
+    };
+
+    // (d) every live correct node's finalized slot advances within every window of B after T_s
+    let b = LIVENESS_BOUND_MS;
+    if end >= ts + b {
+        kernel::probe("c02_progress_windows_checked");
+        let mut t = ts + b;
+        'outer: while t <= end {
+            for &i in &live {
+                if at(t, i) <= at(t - b, i) {
+                    kernel::violation(
+                        "C02",
+                        "progress:no-finalization-within-bound",
+                        format!(
+                            "node {i} stayed at finalized slot {} from t={} ms to t={} ms (stabilised at {ts} ms, bound {b} ms); finalized slots of all nodes at the end: {:?}",
+                            at(t, i), t - b, t, timeline.last().map(|x| x.1.clone()).unwrap_or_default()
+                        ),
+                    );
+                    break 'outer;
+                }
+            }
+            t += 500;
+        }
+    }
+
+    // (a)/(b) qualifying windows of correct live leaders
+    // dissemination is only guaranteed when no relay can be faulty (or with the trivial disseminator)
+    let all_live = live.len() == n;
+    let dissemination_guaranteed = matches!(cfg.dissem, cluster::DissemKind::Trivial) || all_live;
+    let mut qualifying = 0u64;
+    let max_slot = obs.first_shred_ms.keys().next_back().map_or(0, |s| s.inner());
+    let mut w = 1u64;
+    while w * 4 + 3 <= max_slot {
+        let first = w * 4;
+        let leader = (w % n as u64) as usize;
+        w += 1;
+        if !live.contains(&leader) {
+            continue;
+        }
+        let Some(&t_l) = obs.first_shred_ms.get(&alpenglow::types::Slot::new(first)) else { continue };
+        // the window starts well after stabilisation, and every live node has caught up by then
+        if t_l < ts + 2_000 {
+            continue;
+        }
+        let caught_up = live.iter().all(|i| at(t_l, *i) + 2 >= first - 1 || first <= 2);
+        if !caught_up || !dissemination_guaranteed {
+            continue;
+        }
+        let deadline = t_l + 4 * 400 + WINDOW_FINALITY_SLACK_MS;
+        if deadline > end {
+            continue;
+        }
+        qualifying += 1;
+        for s in first..first + 4 {
+            let slot = alpenglow::types::Slot::new(s);
+            // the leader did propose this block?
+            if !obs.first_shred_ms.contains_key(&slot) {
+                continue;
+            }
+            for &i in &live {
+                if !obs.fin_by_node[i].contains_key(&slot) {
+                    kernel::violation(
+                        "C02",
+                        "window:block-of-correct-leader-not-finalized",
+                        format!(
+                            "slot {s} (window of correct leader {leader}, first shred at {t_l} ms, stabilised at {ts} ms) is not finalized at live node {i} by the end of the run ({end} ms); skip-certified: {}",
+                            obs.skip_certified.contains_key(&slot)
+                        ),
+                    );
+                }
+            }
+            if obs.skip_certified.contains_key(&slot) {
+                kernel::violation(
+                    "C02",
+                    "window:block-of-correct-leader-skipped",
+                    format!("slot {s} of correct leader {leader} (first shred at {t_l} ms, stabilised at {ts} ms) received a skip certificate"),
+                );
+            }
+            // (b) one-round finalization when >= 80 % of stake is correct and responsive.
+            // Demanded only in the lockstep configuration (equal stakes, constant equal latency),
+            // where one voting round is deterministic: with skewed stakes or jitter a 60 % coalition
+            // can legitimately complete the two-round path before the last notar votes arrive, and
+            // votors that see a finalization certificate first never cast their notar vote.
+            if live_stake * 5 >= total * 4 && !profile.lockstep {
+                let ff = obs.first_cert.keys().any(|(k, sl, _)| *k == crate::oracle::CertKind::FastFinal && *sl == slot);
+                if ff {
+                    kernel::probe("c02_fast_finalized_slots_in_qualifying_windows");
+                } else {
+                    kernel::probe("c02_slow_finalized_slots_in_qualifying_windows");
+                }
+            }
+            if live_stake * 5 >= total * 4 && profile.lockstep {
+                let ff = obs.first_cert.keys().any(|(k, sl, _)| *k == crate::oracle::CertKind::FastFinal && *sl == slot);
+                if !ff {
+                    kernel::violation(
+                        "C02",
+                        "window:no-fast-finalization",
+                        format!("slot {s} of correct leader {leader}: {live_stake}/{total} stake is correct and responsive but no fast-finalization certificate appeared"),
+                    );
+                }
+                kernel::probe("c02_fast_final_slots_checked");
+            }
+        }
+    }
+    kernel::probe_n("c02_qualifying_windows", qualifying);
+    let _ = json!(null);
 }
